@@ -155,7 +155,8 @@ def expected_pair(x, y):
     return (-1, 0)
 
 
-@lemma('P2.k-candidates', 'C16', quick=[{'k': 3, 'ord': o, 'i1': i} for o in range(4) for i in (False, True)], thorough=[{'k': 3, 'ord': o, 'i1': i} for o in range(4) for i in (False, True)],
+@lemma('P2.k-candidates', 'C16', quick=[{'k': 3, 'ord': o, 'i1': i, 'i2': j} for o in range(4) for i in (False, True) for j in (False, True)],
+       thorough=[{'k': 3, 'ord': o, 'i1': i, 'i2': j} for o in range(4) for i in (False, True) for j in (False, True)],
        timeout=600, per_path=30,
        stubs=['SpanStr', 'stub token classes / match objects'],
        covers=['span_tokenizer.py:eval_tokens', 'span_tokenizer.py:eval_new_child', 'span_tokenizer.py:relation',
@@ -171,7 +172,7 @@ def p2_three(n: int, s1: int, e1: int, a1: int, b1: int, p1: int, i1: bool,
     pre: 0 <= s2 <= a2 <= b2 <= e2 <= n and s2 < e2
     pre: 0 <= s3 <= a3 <= b3 <= e3 <= n and s3 < e3
     pre: s1 <= s2 <= s3
-    pre: p2_part(s1, e1, a1, b1, s2, e2) and i1 == P('i1')
+    pre: p2_part(s1, e1, a1, b1, s2, e2) and i1 == P('i1') and i2 == P('i2')
     post: _
     """
     c1, c2, c3 = (s1, e1, a1, b1, p1, i1), (s2, e2, a2, b2, p2, i2), (s3, e3, a3, b3, p3, i3)
